@@ -93,5 +93,5 @@ MANIFEST = {
             "from the compiled packages on every run. C12_current_build evaluates in the kernel that the namespace walker translates exactly the descriptor-tagged namespace fields, decodes exactly "
             "the event-blob fields, and that every skipped event type / message reaches no such field; C12_generic lifts the boolean check to a statement about every field for any schema. The walker's "
             "dynamic semantics are validated by running the real visitNamespace and a descriptor-driven reference on random fully-populated messages of every root type.",
-    "note": "The value-level semantics of the reflective traversal is validated differentially, not proved; ground truth = descriptor naming rule + explicit DataBlob oracle list.",
+    "note": "Besides random population, every path from every root type to a namespace field (2682 paths: lists, maps, oneofs, failure chains, event blobs) is exercised with one message per path. The value-level semantics of the reflective traversal is validated differentially, not proved; ground truth = descriptor naming rule + explicit DataBlob oracle list.",
 }
